@@ -137,12 +137,31 @@ def r3_handover(r, facts):
                         starts.append(Loc(c['true'], 0))
             what = 'the final completion of a single-shot operation'
         r.require(bool(starts), 'Shared::update/start', 'could not locate the ready edge', f.where())
-        hit = f.forward_paths_hit(starts, rets, blockers=tl)
+        # a path on which the waker slot is known to be empty has nothing to take (take() would return None there)
+        def slot_empty(envd):
+            return any(isinstance(k, tuple) and k[0] == 'D' and isinstance(k[1], tuple) and k[1][1].endswith('.%d' % waker_field) and v == 0 for k, v in envd.items())
+        waker_field = None
+        for loc_, s_ in f.assigns():
+            if s_['rv']['k'] == 'discr':
+                fl = [p_ for p_ in s_['rv']['place']['p'] if p_['k'] == 'field']
+                if fl and fl[-1].get('name') == 'waker':
+                    waker_field = fl[-1].get('i')
+        hit = f.forward_paths_hit(starts, rets, blockers=tl, stop_env=slot_empty if waker_field is not None else None)
         r.inst('take() on %s' % what, f.where(tl[0]) if tl else '')
         r.require(hit is None, 'Shared::update/no-take:%s' % ('multi' if ms else 'single'), 'on %s a path returns without taking the waker (the task is not woken)' % what, f.where(hit[0]) if hit else '')
         # Some(waker) -> StatusUpdate::Wake(waker)
         for loc, t in takes:
             matched = [si for si in f.enum_switches('std::option::Option') if si['place']['l'] == t['dest']['l'] and not si['place']['p']]
+            # or handed on as `.map_or(StatusUpdate::Ok, StatusUpdate::Wake)`: the constructor wraps the taken waker
+            handed = []
+            for l2, t2 in f.calls():
+                if (t2.get('callee') or '') == 'std::option::Option::<T>::map_or' and len(t2['args']) == 3 and 'l' in t2['args'][0] and t2['args'][0]['l'] == t['dest']['l']:
+                    ctor = t2['args'][2]
+                    if ctor.get('k') == 'const' and (ctor.get('fn') or '').endswith('StatusUpdate::Wake') and t2['dest']['l'] == 0:
+                        handed.append(l2)
+            if handed:
+                r.inst('take() result handed to map_or(StatusUpdate::Ok, StatusUpdate::Wake)', f.where(handed[0]))
+                continue
             r.require(bool(matched), 'Shared::update/take-unmatched', 'how the result of self.waker.take() is used was not recognised (unrecognised form)', f.where(loc))
             for si in matched:
                 if True:
